@@ -158,6 +158,9 @@ def num(T, i, k, slot, nonzero):
     raise KeyError(T)
 
 
+MATRIX_VARIANT = None   # None: by position (arrays); 0/1/2: forced (scalar matrix arguments, see Bundle)
+
+
 def make_scalar(t, i, k, nonzero=True):
     t = strip_t(t)
     if t in ARITH_FLT or t in ARITH_INT or t in ARITH_UINT or t == "bool":
@@ -185,12 +188,15 @@ def make_scalar(t, i, k, nonzero=True):
                 if r == c:
                     v += 2.0 + (i % 3)          # diagonally dominant => invertible, well conditioned
                 vals.append(v)
-        if n == 4:                                # affine last column keeps homogeneous divides benign
-            vals[3] = vals[7] = vals[11] = 0.0
-            vals[15] = 1.0
+        # last column: MATRIX_VARIANT 0 = affine (0,..,0,1); 1 = (0,..,0,4): no perspective terms but w != 1;
+        # 2 = genuinely projective with w > 0 on the small operands used here. Arrays of matrices mix the three.
+        mv = MATRIX_VARIANT if MATRIX_VARIANT is not None else i % 3
+        if n == 4:
+            col = ((0.0, 0.0, 0.0, 1.0), (0.0, 0.0, 0.0, 4.0), (0.03125, 0.0, -0.03125, 2.0))[mv]
+            vals[3], vals[7], vals[11], vals[15] = col
         if n == 3:
-            vals[2] = vals[5] = 0.0
-            vals[8] = 1.0
+            col = ((0.0, 0.0, 1.0), (0.0, 0.0, 4.0), (0.03125, -0.03125, 2.0))[mv]
+            vals[2], vals[5], vals[8] = col
         return cls(*vals)
     if kind == "Euler":
         return cls(*[num(inner, i, k, s, False) * 0.5 for s in range(3)])
@@ -391,8 +397,17 @@ def synthesizable(t):
 PLAIN, MASKED, UNMASKED_LEN, MASKED_UNMASKED_LEN, ALIAS0 = "plain", "masked", "unmasked-length", "masked-with-unmasked-length", "same-object-as-first-argument"
 
 
-def mask_for(n, m):
-    """IntArray of length m selecting exactly n positions in an irregular pattern."""
+def mask_for(n, m, blocky=False):
+    """IntArray of length m selecting exactly n positions: in an irregular scattered pattern, or (blocky) as two
+    CONTIGUOUS runs separated by a gap that falls on the cut n//2 of the schedule alphabets — so that a later sub-range
+    sees a contiguous stretch of the mask whose offset differs from the first one's."""
+    if blocky:
+        h = n // 2
+        chosen = list(range(3, 3 + h)) + list(range(3 + h + 7, 3 + h + 7 + (n - h)))
+        ia = imath.IntArray(m)
+        for j in chosen:
+            ia[j] = 1
+        return ia, chosen
     sel, i, step = [], 0, 0
     pos = [0] * m
     chosen = 0
@@ -409,12 +424,12 @@ def mask_for(n, m):
 class Bundle:
     """Prototype arguments for one (entry, kinds, n); instantiate() gives fresh copies for one call."""
 
-    def __init__(self, e, kinds, n, bad_len_arg=None, runs=False):
-        self.e, self.kinds, self.n, self.runs = e, kinds, n, runs
+    def __init__(self, e, kinds, n, bad_len_arg=None, runs=False, mvar=0, blocky=False):
+        self.e, self.kinds, self.n, self.runs, self.mvar = e, kinds, n, runs, mvar
         self.protos = []
         divlike = any(s in e.name for s in ("div", "mod", "Div", "Mod"))
         m = 2 * n + 3
-        self.mask, self.sel = mask_for(n, m)
+        self.mask, self.sel = mask_for(n, m, blocky)
         ai = 0
         for k, t in enumerate(e.args):
             st = strip_t(t)
@@ -441,10 +456,19 @@ class Bundle:
                     self.protos.append(("arr", make_array(st, ln, k, nonzero)))
                 ai += 1
             else:
-                self.protos.append(("scalar", make_scalar(st, 5, k, True), (st, 5, k)))
+                self.protos.append(("scalar", self.scalar(st, 5, k), (st, 5, k)))
         self.first_array_index = next((i for i, p in enumerate(self.protos) if p[0] in ("arr", "marr")), 0)
         if runs:
             self.make_runs()
+
+    def scalar(self, st, i, k):
+        """a scalar (non-array) argument; matrices get this bundle's last-column variant"""
+        global MATRIX_VARIANT
+        MATRIX_VARIANT = self.mvar
+        try:
+            return make_scalar(st, i, k, True)
+        finally:
+            MATRIX_VARIANT = None
 
     def make_runs(self):
         """second data set: the element SEQUENCE every argument presents is constant on runs of five consecutive
@@ -476,7 +500,7 @@ class Bundle:
                 if type(s) in (int, float, bool):
                     args.append(s)
                 else:
-                    s2 = make_scalar(*p[2], True); args.append(s2); keep.append(s2)   # fresh object: scalars may be mutated ({lvalue})
+                    s2 = self.scalar(*p[2]); args.append(s2); keep.append(s2)   # fresh object: scalars may be mutated ({lvalue})
         return args, keep
 
     def element_args(self, i):
@@ -713,20 +737,29 @@ def explore_entry(e, tier, deadline_at):
     # the all-masked argument kinds (thorough: every kind)
     plan = [(kinds, False) for kinds in combos]
     plan += [(kinds, True) for kinds in (combos if thorough else [combos[0], tuple(MASKED for _ in combos[0])]) if kinds in combos]
+    # a scalar Matrix33/44 argument (M.multVecMatrix(array), array * M ...): also with last column (0,..,0,4) and projective
+    has_scalar_matrix = any(("Matrix33" in strip_t(t) or "Matrix44" in strip_t(t)) and not strip_t(t).startswith("PyImath::FixedArray<") for t in e.args)
+    plan = [(kinds, runs, 0) for kinds, runs in plan]
+    if has_scalar_matrix:
+        plan += [(combos[0], False, 1), (combos[0], False, 2)]
+    plan = [(kinds, runs, mvar, False) for kinds, runs, mvar in plan]
+    # masked arguments whose mask is two contiguous runs with a gap (instead of the scattered pattern): all-masked, and the
+    # masked-self / unmasked-length right-hand-side kinds of the in-place members
+    plan += [(kinds, False, 0, True) for kinds in combos if kinds and kinds[0] == MASKED and (all(x == MASKED for x in kinds) or UNMASKED_LEN in kinds or MASKED_UNMASKED_LEN in kinds)]
     seen_plan = set()
-    for kinds, runs in plan:
-        if (kinds, runs) in seen_plan:
+    for kinds, runs, mvar, blocky in plan:
+        if (kinds, runs, mvar, blocky) in seen_plan:
             continue
-        seen_plan.add((kinds, runs))
+        seen_plan.add((kinds, runs, mvar, blocky))
         if time.time() > deadline_at:
             res["partial"] = True
             break
         try:
-            bundle = Bundle(e, kinds, n, runs=runs)
+            bundle = Bundle(e, kinds, n, runs=runs, mvar=mvar, blocky=blocky)
         except Exception as ex:                 # noqa: BLE001
             res["skipped"] = "cannot build arguments (%s: %s)" % (type(ex).__name__, ex)
             return res
-        kl = "/".join(kinds) + (" data=runs-of-5" if runs else "")
+        kl = "/".join(kinds) + (" data=runs-of-5" if runs else "") + ("" if not mvar else " scalar-matrix-last-column-variant=%d" % mvar) + (" mask=two-contiguous-runs" if blocky else "")
         # ---- reference: no pool installed
         verifpool.uninstall()
         try:
